@@ -195,3 +195,35 @@ CHECKS["C15"] = dict(
                  "known findings are listed per function pair; a race between any other pair is a violation"],
     parts=[P("race", "seq", "TestC15", dict(checks=48, shards=8, timeout=900, shrinktime="15s"), dict(checks=1600, shards=16, timeout=3400, shrinktime="30s"), race=True)],
 )
+
+_E4_DIRS = ["internal/model/core", "internal/model/sequence", "internal/usecase/core", "internal/usecase/store", "internal/usecase/transaction",
+            "internal/usecase/cleaner", "internal/usecase/dir", "internal/repository/dir", "internal/repository/transaction", "internal/repository/content",
+            "internal/repository/file", "internal/repository/content_file", "internal/utils/async", "internal/utils/wpool", "internal/db/badger", "pkg/inline/db", "internal/di"]
+_E4_ASSUME = ["fs_db's sync / sync-atomic / go statements / blocking selects / time.After in the listed packages are redirected by the source rewriter (tools/rewrite) to the cooperative scheduler harness/detsync; everything else (Badger, files, the omap registry) runs unmodified and is atomic from the scheduler's point of view",
+              "scheduling points: every lock/unlock/atomic/cond/waitgroup/channel-select operation and every verif hook point; one managed goroutine runs at a time; the schedule (forced preemptions or a random-walk tape) is part of the generated case",
+              "a fresh Badger database and file tree per schedule"]
+
+CHECKS["C07"] = dict(
+    level="exploration",
+    rule=("part 'enum': a catalogue of 7 tiny programs (2-3 snapshot transactions begun and written in a sequential prologue, intersecting write sets, one variant against an autocommit writer) whose Commit calls run concurrently; the default schedule plus EVERY single forced preemption of the concurrent phase is executed. "
+          "part 'rand': rapid-generated programs of the same family (1-3 keys, 2-3 transactions of levels RR/SER/RC, optional late write, optional autocommit writer) x generated schedules (0-4 forced preemptions or a random-walk tape with switch probability 2-30%). "
+          "Oracle: no deadlock/panic, and the call/return history (commits + an epilogue reading every key) has a linearization accepted by the reference model - under it two intersecting snapshot commits cannot both succeed. "
+          "non-trivial = two operations of different clients, one a write/commit, overlapped in logical time."),
+    assumptions=_E4_ASSUME,
+    parts=[
+        P("enum", "det", "TestC07Enum", dict(checks=1, shards=8, split=False, timeout=900), dict(checks=1, shards=16, split=False, timeout=3000), rapid=False, rewrite=_E4_DIRS),
+        P("rand", "det", "TestC07Rand", dict(checks=320, shards=8, timeout=900), dict(checks=50000, shards=16, timeout=3400), rewrite=_E4_DIRS),
+    ],
+)
+
+CHECKS["C08"] = dict(
+    level="exploration",
+    rule=("part 'enum': a catalogue of 7 tiny programs (a snapshot reader that begins and reads all keys while a 2/3-key commit runs; Begin racing with an overwrite and a collector run; an open reader re-reading while a writer overwrites twice and the collector runs twice; Begin racing with Begin, overwrite and collector) - the default schedule plus EVERY single forced preemption of the concurrent phase. "
+          "part 'rand': rapid-generated programs (1-3 keys, 0-2 multi-key committers of any level, 1-2 snapshot readers with optional re-reads and GetKeys, optional autocommit writer, optional collector actor) x generated schedules (0-4 forced preemptions or a random-walk tape). "
+          "Oracle: no deadlock/panic; the history has a linearization in which Begin is the snapshot point (a reader seeing part of a commit, or a re-read that changes, has none). non-trivial = operations of different clients overlapped in logical time with a write/commit involved."),
+    assumptions=_E4_ASSUME,
+    parts=[
+        P("enum", "det", "TestC08Enum", dict(checks=1, shards=8, split=False, timeout=900), dict(checks=1, shards=16, split=False, timeout=3000), rapid=False, rewrite=_E4_DIRS),
+        P("rand", "det", "TestC08Rand", dict(checks=320, shards=8, timeout=900), dict(checks=50000, shards=16, timeout=3400), rewrite=_E4_DIRS),
+    ],
+)
